@@ -1,5 +1,11 @@
 """Which properties are claimed, with what technique and level (feeds MANIFEST.json)."""
-from .manifest import claim
+# pid -> (technique, level text, level note, design ref)
+CLAIMED = {}
+
+
+def claim(pid, technique, text, note, ref="7"):
+    CLAIMED[pid] = (technique, text, note, ref)
+
 
 TB = ("trusted: TLC 1.8, tskit/numpy as instance builders, the abstraction functions of vt/ (ranks, interning, "
       "named tolerance predicates); small-scope hypothesis for the exhaustive bounds stated in the evidence")
